@@ -27,11 +27,12 @@ FAMILIES = ["gaussian", "uniform", "ofdm", "heavy", "constant", "alternating", "
 
 def units(tier, seed):
     out = []
+    out_extra = [{"unit": "registry-path", "kind": "registry", "rep": 0, "cost": 2}]
     for name in ("total", "average", "perantenna", "peak", "papr", "composite", "ofdm_factory", "mimo_factory"):
         reps = 1 if tier == "quick" else 6
         for r in range(reps):
             out.append({"unit": f"{name}#{r}", "kind": name, "rep": r, "cost": 6 if name in ("papr", "composite", "ofdm_factory", "mimo_factory") else 2})
-    return out
+    return out + out_extra
 
 
 def seed_for(*parts):
@@ -136,6 +137,41 @@ def run_unit(ctx, u):
             return "batch-of-1" if len(shape) == 2 else f"batch-of-1,{len(shape)}-D"
         return {1: "1-D", 2: "(B,N)", 3: "(B,A,N)", 4: "(B,A,H,W)"}[len(shape)]
 
+    if kind == "registry":
+        # the same configurations obtained through ConstraintRegistry.create, as a sequence of *different* values of
+        # the same keywords: every object must behave like the directly constructed one
+        from kaira.constraints.registry import ConstraintRegistry as CR
+
+        byclass = {CR.get(n): n for n in CR.list_constraints()}
+        plans = [
+            (K.TotalPowerConstraint, "total_power", [1.0, 4.0, 0.25, 4.0, 100.0]),
+            (K.AveragePowerConstraint, "average_power", [1.0, 0.1, 9.0, 0.1]),
+            (K.PeakAmplitudeConstraint, "max_amplitude", [1.0, 0.2, 5.0, 0.2]),
+            (K.PAPRConstraint, "max_papr", [4.0, 2.5, 8.0]),
+            (K.PerAntennaPowerConstraint, "uniform_power", [1.0, 3.0, 0.5]),
+        ]
+        for cls_, kwname, values in plans:
+            rname = byclass.get(cls_)
+            if rname is None:
+                ctx.skip(f"{cls_.__name__} not in the registry")
+                continue
+            for v in values:
+                for cplx in (False, True):
+                    x = signal("gaussian", (3, 4, 16), cplx, 2.0, g)
+                    ctx.case("registry", cls_.__name__, v, cplx)
+                    try:
+                        y_dir = cls_(**{kwname: v})(x.clone())
+                    except Exception:  # noqa: BLE001
+                        ctx.skip("input form rejected by the directly constructed object as well")
+                        continue
+                    try:
+                        y_reg = CR.create(rname, **{kwname: v})(x.clone())
+                    except Exception as e:  # noqa: BLE001
+                        ctx.violation(f"{cls_.__name__}|registry|registry object = direct object|raised:{type(e).__name__}", value=v, error=str(e)[:200])
+                        continue
+                    ctx.check(bool(torch.allclose(y_reg, y_dir, rtol=1e-6, atol=1e-7)), "registry object = direct object", f"{cls_.__name__}|registry|registry object = direct object|differs", keyword=kwname, value=v, complex=cplx)
+        ctx.sample({"unit": u["unit"], "classes": [c.__name__ for c, _, _ in plans]})
+        return
     if kind in ("total", "average"):
         for tgt in targets:
             mk = (lambda: K.TotalPowerConstraint(tgt)) if kind == "total" else (lambda: K.AveragePowerConstraint(tgt))
